@@ -2070,3 +2070,126 @@ def run_c20(ctx):
 
 
 REGISTRY["C20"] = dict(module="Properties_C20", run=run_c20)
+
+
+# ------------------------------------------------------------------------------------------
+# C11 (resources) and C10 (include = inlining): include forests
+
+def forest_cases(rng, n, max_files):
+    """[(setup lines, top text, files dict)]"""
+    res = []
+    for i in range(n):
+        text = gen_text.rand_config(rng, size=rng.choice([6, 15, 40]))
+        if not text.endswith(b"\n"):
+            text += b"\n"
+        top, files = gen_text.cut_into_files(rng, text, max_depth=rng.choice([1, 2, 3, 4]), max_files=max_files)
+        res.append((text, top, files))
+    return res
+
+
+def forest_script(top, files, entry="readf", extra=()):
+    body = ["init"]
+    for name, content in files.items():
+        body.append("fs put %s %s" % (hx(name), hx(content)))
+    body.append("fs put %s %s" % (hx(b"top.cfg"), hx(top)))
+    body += list(extra)
+    if entry == "readf":
+        body.append("readf %s" % hx(b"top.cfg"))
+    elif entry == "reads":
+        body.append("reads %s" % hx(top))
+    else:
+        body.append("readst %s" % hx(top))
+    body.append("dump")
+    return body
+
+
+def c11_cases(rng, nforests, max_files):
+    cases = []
+    stats = {"forests": 0, "faults": {}}
+    for text, top, files in forest_cases(rng, nforests, max_files):
+        stats["forests"] += 1
+        names = list(files.keys())
+        entry = rng.choice(["readf", "reads", "readst"])
+        cases.append("\n".join(forest_script(top, files, entry)) + "\n")
+        # fault plans: each kind injected at each file in turn
+        for victim in [None] + names:
+            for kind in ("missing", "dir", "syntax", "dup", "mismatch"):
+                f2 = dict(files)
+                t2 = top
+                extra = []
+                if kind in ("missing", "dir"):
+                    if victim is None:
+                        continue
+                    del f2[victim]
+                    if kind == "dir":
+                        extra.append("fs dir %s" % hx(victim))
+                else:
+                    inj = {"syntax": b"= oops ;\n", "dup": b"dupname = 1;\ndupname = 2;\n", "mismatch": b"mm = [ 1, \"s\" ];\n"}[kind]
+                    src = t2 if victim is None else f2[victim]
+                    lines = src.split(b"\n")
+                    k = rng.randint(0, len(lines) - 1)
+                    lines.insert(k, inj.rstrip(b"\n"))
+                    src = b"\n".join(lines)
+                    if victim is None:
+                        t2 = src
+                    else:
+                        f2[victim] = src
+                stats["faults"][kind] = stats["faults"].get(kind, 0) + 1
+                cases.append("\n".join(forest_script(t2, f2, rng.choice(["readf", "reads", "readst"]), extra)) + "\n")
+        # include function failures / self include / too deep
+        cases.append("\n".join(forest_script(top, files, "readf", ["incfn fail %s" % hx(b"custom failure")])) + "\n")
+        cases.append("\n".join(forest_script(top, files, "readf", ["incfn empty"])) + "\n")
+        if names:
+            cases.append("\n".join(forest_script(top, files, "readf", ["incfn multi %s" % ",".join(hx(x) for x in names[:3])])) + "\n")
+            cases.append("\n".join(forest_script(top, files, "readf", ["incfn multi %s" % ",".join([hx(names[0]), hx(b"nosuch.cfg")])])) + "\n")
+            f3 = dict(files)
+            f3[names[-1]] = f3[names[-1]] + b"\n@include \"" + names[-1] + b"\"\n"      # a cycle
+            cases.append("\n".join(forest_script(top, f3, "readf")) + "\n")
+    return cases, stats
+
+
+def c11_oracle(script, rec):
+    bad = died(script, rec)
+    if rec["status"] != "ok":
+        bad.append("process status %s: %s" % (rec["status"], rec["stderr"][-300:].replace("\n", " | ")))
+    stack = []
+    for l in rec["impl"]:
+        if l.startswith("L open "):
+            stack.append(l[7:])
+        elif l.startswith("L close "):
+            if not stack or stack[-1] != l[8:]:
+                bad.append("close of %s does not match the innermost open stream %s" % (l[8:], stack[-1] if stack else None))
+            else:
+                stack.pop()
+        elif l in ("L FDLEAK", "L STREAMBAD"):
+            bad.append(l + " (descriptor count changed / caller's stream unusable after the read)")
+        elif l.startswith("R i") and stack:
+            bad.append("read returned with streams still open: %s" % stack)
+            stack = []
+    return bad
+
+
+def run_c11(ctx):
+    res = Result()
+    rc = replay_cases(ctx)
+    if rc is not None:
+        cases, stats = rc, {}
+    else:
+        cases, stats = c11_cases(ctx.rng, 25 if ctx.tier == "quick" else 400, 6 if ctx.tier == "quick" else 40)
+    res.rule = ("generated include forests (a generated text cut at line boundaries into a tree of files, depth <= 4) read "
+                "through config_read_file / config_read_string / config_read(stream); for each forest each fault kind "
+                "(file deleted, replaced by a directory, syntax error / duplicate / mismatched element at a random line) "
+                "injected at the top file and at every included file in turn, plus include-function error, empty list, "
+                "multi-path lists with a missing later file, and a self-including file; the fopen/fclose event trace "
+                "(--wrap) is compared event for event with the model; /proc/self/fd count before/after; the caller's stream "
+                "is ftell'ed and closed; ASan + LeakSanitizer")
+    res.distinct = len(set(cases))
+    res.distribution = stats
+    res.samples = [cases[min(3, len(cases) - 1)][:700]] if cases else []
+    keep = lambda l: l if l.startswith(("R ", "L ", "E ")) else None
+    correspond(ctx, res, cases, line_filter=keep, oracle=c11_oracle,
+               known=lambda s, r, o: match_known("C11", s, r, o), per_proc=10)
+    return res
+
+
+REGISTRY["C11"] = dict(module="Properties_C11", run=run_c11)
